@@ -16,10 +16,13 @@ import itertools
 import json
 import random
 import re
-from decimal import ROUND_DOWN, ROUND_HALF_UP, Decimal, InvalidOperation
+from decimal import ROUND_DOWN, ROUND_HALF_UP, Decimal, InvalidOperation, getcontext
 
 from lib import common
 from lib.common import dec_list, dec_str, enc_list, enc_opt, enc_str
+
+
+getcontext().prec = 100   # 38-digit decimals are quantized exactly
 
 
 def sql_str(s: str) -> str:
@@ -281,7 +284,8 @@ def build(chk):
     rnd.shuffle(combos)
     combos = combos[: (500 if quick else 3000)]
     combos += [("to_number", "12.5", True, []), ("to_number", "12.5", True, [10]), ("to_number", "12.5", True, [10, 1]), ("to_decimal", "2.5", True, []),
-               ("to_number", "12.345", False, [10, 2]), ("to_number", "99.995", True, [4, 2]), ("to_number", "12", True, ["s"]), ("try_to_number", "abc", True, [])]
+               ("to_number", "12.345", False, [10, 2]), ("to_number", "99.995", True, [4, 2]), ("to_number", "12", True, ["s"]), ("to_number", "12345678901234567890", True, []), ("to_decimal", "12345678901234567890", True, []),
+               ("try_to_number", "12345678901234567890123456789012345678", True, []), ("try_to_number", "abc", True, [])]
     for fn, v, is_str, a in combos:
         lit = sql_str(v) if is_str else v
         extra = "".join(", " + (sql_str("99.99") if t == "s" else str(t)) for t in a)
